@@ -183,6 +183,12 @@ impl FramebufferTag {
                 let palette = {
                     // Ensure the slice can be created without causing UB
                     assert_eq!(mem::size_of::<FramebufferColor>(), 3);
+                    // The palette must lie inside the tag.
+                    assert!(
+                        reader.off + num_colors as usize * mem::size_of::<FramebufferColor>()
+                            <= self.buffer.len(),
+                        "palette exceeds the framebuffer tag. The MBI seems to be corrupt."
+                    );
 
                     unsafe {
                         slice::from_raw_parts(
